@@ -284,11 +284,6 @@ theorem dataRows_error_wf {V : Type} (cv : Conv V) (cfg : Cfg V) (titles : List 
       · exact ih _ (some cur) (fun r hr' => hr r (by simp [hr']))
           (fun pr hpr => by cases hpr; rw [hclen, hrow]) e h
 
-/-- the titles of the sheet: those of its first row that is not blank -/
-def titlesOf : Sheet → List Key
-  | [] => []
-  | row :: rest => if rowEmpty row then titlesOf rest else row.map (fun c => titleOf c.val)
-
 theorem iterTable_error_wf {V : Type} (cv : Conv V) (cfg : Cfg V) (n : Nat) (hn : 0 < n) :
     ∀ (s : Sheet), (∀ r ∈ s, r.length = n) → RulesOk cv cfg (titlesOf s) →
       ∀ e, (iterTable cv cfg s).err = some e → e = .valueError := by
